@@ -731,6 +731,51 @@ def check_refuted(ctx):
         ctx.notes.append("Findings/C18_kw.v no longer compiles: finding 'minimize drops keywords' no longer reproduces on the generated table")
 
 
+# ------------------------------------------------------------------ shape transparency (ranks 0..4)
+
+RANK_SHAPES = [[], [1], [1, 1], [3], [2, 1], [1, 3], [3, 1, 2], [1, 1, 1], [2, 1, 2, 1], [1, 2, 1, 1]]
+
+
+def shape_problem(rng, kind, shape, objective="quad"):
+    n = int(np.prod(shape)) if shape else 1
+    ncomp = 2 * n if kind in ("c64", "c128") else n
+
+    def vals(lo, hi):
+        return [rng.randint(lo * 4, hi * 4) / 4.0 for _ in range(ncomp)]
+    p = {"kind": kind, "objective": objective,
+         "blocks": [{"shape": list(shape), "x0": vals(-2, 2), "c": vals(-2, 2), "w": [rng.randint(2, 8) / 2.0 for _ in range(ncomp)]}]}
+    if objective == "quad-args":
+        p["args"] = [rng.randint(-4, 4) / 4.0, rng.randint(1, 4) / 2.0]
+    return p
+
+
+def check_shapes(ctx):
+    """result.x.shape == x0.shape and dtype == x0.dtype for ranks 0..4, including the empty shape
+    () and unit dimensions, real and complex, single and double, gradient-based and
+    gradient-free methods (values compared with the direct SciPy call as everywhere else)."""
+    gm = gradient_methods()
+    gsafe = [m for m in gm if m not in NEED_HESS and m not in ("TNC", "SLSQP")]
+    plan = []
+    for kind in ("f32", "f64", "c64", "c128"):                    # rank 0: every kind x both method classes
+        plan.append((kind, [], ctx.rng.choice(gsafe)))
+        plan.append((kind, [], ctx.rng.choice(GRAD_FREE)))
+    shapes = RANK_SHAPES[1:] if not ctx.quick else RANK_SHAPES[1:3] + ctx.rng.sample(RANK_SHAPES[3:], 4)
+    for sh in shapes:
+        for _ in range(ctx.n(1, 4)):
+            kind = ctx.rng.choice(["f32", "f64", "c64", "c128"])
+            n = (int(np.prod(sh)) if sh else 1) * (2 if kind.startswith("c") else 1)
+            plan.append((kind, sh, ctx.rng.choice(gsafe + (GRAD_FREE if n <= 4 else []))))
+    if not ctx.quick:
+        plan += [(k, [], m) for k in ("f32", "f64", "c64", "c128") for m in gm if m not in NEED_HESS
+                 and not (k in ("f32", "c64") and m in ("TNC", "SLSQP"))]
+    for kind, sh, m in plan:
+        p = shape_problem(ctx.rng, kind, sh, ctx.rng.choice(["quad", "quad-args"]))
+        status, det = run_differential(p, m, gm)
+        ctx.count(f"shape:rank{len(sh)}", {"p": p, "m": m})
+        if status != "ok":
+            report_differential(ctx, p, m, status, det)
+
+
 # ------------------------------------------------------------------ non-finite gradients
 
 NONFINITE_COMPARE = ["CG", "BFGS", "L-BFGS-B", "SLSQP"]
@@ -1255,6 +1300,7 @@ def run(ctx: Ctx):
     check_scalar(ctx)
     check_history(ctx)
     check_nonfinite(ctx)
+    check_shapes(ctx)
     check_handed_function(ctx)
     check_differential(ctx)
     if not getattr(ctx, "no_proofs", False):
